@@ -663,82 +663,113 @@ def _collapse(tokens: list) -> list:
     return out
 
 
-def _printer_emission(fi: FuncInfo, cls: ast.ClassDef, meth: ast.FunctionDef):
-    """Evaluate a ``_print_<Array>(self, arr)`` method on a three-element array whose
-    elements print as E0, E1, E2; returns the emitted code template (a string)."""
+def _printer_emission(fi: FuncInfo, cls: ast.ClassDef, meth: ast.FunctionDef, shape: tuple = (3,)):
+    """Interpret a ``_print_<Array>(self, arr)`` method (pdelint/npsem.py, python semantics of the
+    string building) on an array stand-in of the given shape whose elements print as E0, E1, ...
+    (row-major); nested arrays are printed through the same method, as sympy's printer dispatch
+    does.  Returns the emitted code template (a string) and the number of elements."""
+    from .. import npsem as ns
+
     a = meth.args
     if len(a.args) != 2:
         raise _grammar(fi, meth, "printer method must take (self, arr)")
-    selfn, arrn = a.args[0].arg, a.args[1].arg
-    n = 3
-    env: dict[str, object] = {arrn: ("seq", list(range(n)))}
+    import itertools as _it
 
-    def seq(e):
-        if isinstance(e, ast.Name) and isinstance(env.get(e.id), tuple) and env[e.id][0] == "seq":
-            return list(env[e.id][1])
-        if isinstance(e, ast.Call) and _leaf(e.func) in ("list", "tuple", "iter") and len(e.args) == 1:
-            return seq(e.args[0])
-        if isinstance(e, ast.Call) and _leaf(e.func) == "reversed" and len(e.args) == 1:
-            return list(reversed(seq(e.args[0])))
-        if isinstance(e, ast.Subscript) and isinstance(e.slice, ast.Slice) and e.slice.lower is None and e.slice.upper is None:
-            st = e.slice.step
-            if st is None:
-                return seq(e.value)
-            if isinstance(st, ast.UnaryOp) and isinstance(st.op, ast.USub) and isinstance(st.operand, ast.Constant) and st.operand.value == 1:
-                return list(reversed(seq(e.value)))
-        raise _grammar(fi, e, f"printer method iterates over `{ast.unparse(e)}`")
+    import numpy as _np
 
-    def ev(e) -> str:
-        if isinstance(e, ast.Constant) and isinstance(e.value, str):
-            return e.value
-        if isinstance(e, ast.Name) and isinstance(env.get(e.id), str):
-            return env[e.id]
-        if isinstance(e, ast.Name) and isinstance(env.get(e.id), tuple) and env[e.id][0] == "elem":
-            return f"E{env[e.id][1]}"
-        if isinstance(e, ast.JoinedStr):
-            out = ""
-            for v in e.values:
-                if isinstance(v, ast.Constant):
-                    out += str(v.value)
-                elif isinstance(v, ast.FormattedValue) and v.format_spec is None and v.conversion == -1:
-                    out += ev(v.value)
-                else:
-                    raise _grammar(fi, e, "formatted value with conversion/format spec in a printer method")
-            return out
-        if isinstance(e, ast.BinOp) and isinstance(e.op, ast.Add):
-            return ev(e.left) + ev(e.right)
-        if isinstance(e, ast.Call):
-            f = e.func
-            if isinstance(f, ast.Attribute) and isinstance(f.value, ast.Name) and f.value.id == selfn and f.attr in ("_print", "doprint") and len(e.args) == 1:
-                return ev(e.args[0])
-            if isinstance(f, ast.Name) and f.id == "str" and len(e.args) == 1:
-                return ev(e.args[0])
-            if isinstance(f, ast.Attribute) and f.attr == "join" and len(e.args) == 1 and isinstance(e.args[0], (ast.GeneratorExp, ast.ListComp)):
-                sep = ev(f.value)
-                c = e.args[0]
-                if len(c.generators) != 1 or c.generators[0].ifs or not isinstance(c.generators[0].target, ast.Name):
-                    raise _grammar(fi, c, "comprehension in a printer method")
-                tgt = c.generators[0].target.id
-                pieces = []
-                for i in seq(c.generators[0].iter):
-                    old = env.get(tgt)
-                    env[tgt] = ("elem", i)
-                    pieces.append(ev(c.elt))
-                    if old is None:
-                        env.pop(tgt, None)
-                    else:
-                        env[tgt] = old
-                return sep.join(pieces)
-        raise _grammar(fi, e, f"printer method expression `{ast.unparse(e)[:60]}`")
+    names = _np.empty(shape, dtype=object)
+    for k, idx in enumerate(_it.product(*[range(n) for n in shape])):
+        names[idx] = f"E{k}"
+    sem = ns.NpSem(where=f"{fi.ref}::{cls.name}.{meth.name}")
 
-    for st in strip_doc(meth.body):
-        if isinstance(st, ast.Assign) and len(st.targets) == 1 and isinstance(st.targets[0], ast.Name):
-            env[st.targets[0].id] = ev(st.value)
-        elif isinstance(st, ast.Return) and st.value is not None:
-            return ev(st.value), n
+    def elem(nm):
+        return ns.Stub(nm, __str__=lambda nm=nm: nm, __kind__=("Expr",))
+
+    def arr_stub(view):
+        if view.ndim == 0:
+            return elem(view[()])
+
+        def getitem(key):
+            try:
+                sub = view[key]
+            except (IndexError, TypeError) as e:
+                raise ns.Raised(f"IndexError: {e}") from None
+            return arr_stub(sub) if isinstance(sub, _np.ndarray) else elem(sub)
+
+        return ns.Stub(
+            f"array{view.shape}",
+            shape=tuple(view.shape),
+            rank=lambda: view.ndim,
+            __iter__=lambda: [getitem(i) for i in range(view.shape[0])],
+            __getitem__=getitem,
+            __len__=lambda: int(view.size),
+            __kind__=("ImmutableDenseNDimArray", "NDimArray"),
+        )
+
+    scope = ns.Scope({"np": ns.NP, "sympy": ns.Opaque("sympy")})
+
+    def do_print(x):
+        if isinstance(x, ns.Stub) and "shape" in x._attrs:
+            return sem.run_function(meth, {}, (self_stub, x), outer=scope)
+        if isinstance(x, ns.Stub) and "__str__" in x._attrs:
+            return x._attrs["__str__"]()
+        if isinstance(x, (int, str)):
+            return str(x)
+        raise _grammar(fi, meth, f"printer method prints `{x!r}`")
+
+    self_stub = ns.Stub("printer", _print=do_print, doprint=do_print)
+    try:
+        out = do_print(arr_stub(names))
+    except ns.Raised as e:
+        raise _grammar(fi, meth, f"printer method raises on an array of shape {shape}: {e.what}") from None
+    except ns.Unsupported as e:
+        raise _grammar(fi, meth, str(e)) from None
+    if not isinstance(out, str):
+        raise _grammar(fi, meth, "printer method does not return a string")
+    return out, int(names.size)
+
+
+def _emitted_value(fi: FuncInfo, role: str, tmpl: str, shape: tuple, arrays: set):
+    """Interpret the emitted code (second stage): elements listed in ``arrays`` are 1-d arrays of
+    three distinct symbols, the others scalars.  Returns (value | None, expected, problem)."""
+    import itertools as _it
+
+    import numpy as _np
+    import sympy as _sp
+
+    from .. import npsem as ns
+
+    n = int(_np.prod(shape))
+    env = {}
+    for k in range(n):
+        env[f"E{k}"] = ns.sym_array(f"e{k}", (3,)) if k in arrays else _sp.Symbol(f"e{k}")
+    for nm, fn in ns.NP_FUNCS.items():
+        env[nm] = fn
+    exp = _np.empty(shape + ((3,) if arrays else ()), dtype=object)
+    for k, idx in enumerate(_it.product(*[range(m) for m in shape])):
+        if arrays:
+            exp[idx] = env[f"E{k}"] if k in arrays else _np.array([env[f"E{k}"]] * 3, dtype=object)
         else:
-            raise _grammar(fi, st, f"statement `{type(st).__name__}` in a printer method")
-    raise _grammar(fi, meth, "printer method without return")
+            exp[idx] = env[f"E{k}"]
+    sem = ns.NpSem(where=f"{fi.ref}::{role} (emitted code)")
+    try:
+        val = sem.eval(ast.parse(tmpl, mode="eval").body, ns.Scope(env))
+    except ns.Raised as e:
+        return None, exp, f"the emitted code raises `{e.what}`"
+    except ns.Unsupported as e:
+        raise AnalysisError(f"C11: {fi.ref}::{role}: emitted code `{tmpl}` is outside the modelled numpy subset: {e}") from None
+    if isinstance(val, list):
+        try:
+            val = ns._np_array(val)
+        except ns.Raised as e:
+            return None, exp, f"the emitted nested list is ragged: {e.what}"
+    diff = ns.arrays_equal(val, exp)
+    if diff:
+        if diff[0][0] == "shape":
+            return val, exp, f"the emitted code gives an array of shape {diff[0][1]}, expected {diff[0][2]} (tensor shape first, then the common broadcast shape)"
+        idx, got, want = diff[0]
+        return val, exp, f"entry {tuple(idx)} is `{got}`, expected `{want}`"
+    return val, exp, None
 
 
 def _numpy_has(name: str) -> bool:
@@ -865,6 +896,25 @@ def _backend_facts(rep: Report, ix, tag: str, fi: FuncInfo, full: bool) -> dict:
             if isinstance(m, ast.FunctionDef) and m.name.startswith("_print_"):
                 tmpl, n = _printer_emission(fi, cv.node, m)
                 role = f"{cv.node.name}.{m.name}"
+                # second stage: what the emitted code computes, for array literals of rank 1 and 2 whose entries
+                # broadcast differently (the rows of a rank-2 literal must be broadcast *jointly*)
+                for shape_, arrays_ in (((3,), set()), ((3,), {0}), ((2, 2), set()), ((2, 2), {0}), ((2, 2), {3}), ((2, 3), {1, 5})):
+                    t2, _n2 = _printer_emission(fi, cv.node, m, shape_)
+                    val, exp, problem = _emitted_value(fi, role, t2, shape_, arrays_)
+                    if problem and isinstance(val, list) is False and arrays_ and "[" == t2.strip()[:1]:
+                        # list printers hand nested lists to a separate array builder: only the nesting is theirs
+                        continue
+                    _ob(
+                        rep,
+                        "array-literal-joint-broadcast",
+                        ref + f".{cv.node.name}.{m.name}",
+                        f"rank{len(shape_)}",
+                        problem is None,
+                        f"array literal of shape {shape_} with array-valued entries {sorted(arrays_)} (others scalar): {problem} (emitted code `{t2[:160]}`); "
+                        "all components of a tensor expression must be broadcast to one common shape",
+                        line=m.lineno,
+                        tag=f"{cv.node.name}:{shape_}:{sorted(arrays_)}",
+                    )
                 try:
                     tree = ast.parse(tmpl, mode="eval")
                 except SyntaxError:
